@@ -15,7 +15,7 @@ type StmtGen struct {
 	Pool []string // identifiers to use instead of the built-in pool
 }
 
-var identPool = []string{"t1", "t2", "orders", "col_a", "x", "y", "name", "qty", "a", "b", "c", "is_ok", "T", "Mixed_Case", "tbl9"}
+var identPool = []string{"t1", "t2", "orders", "col_a", "x", "y", "name", "qty", "a", "b", "c", "is_ok", "T", "Mixed_Case", "tbl9", "café", "straße", "имя2", "列१x", "tbl٣", "db１"}
 var oddIdents = []string{"my col", "select", "from", "a-b", "1st", "o'hara", "semi;colon"}
 
 func (g *StmtGen) ident() string {
